@@ -393,7 +393,7 @@ def rule_pointer_scale(chk, prog, tier):
     fn = prog.require_func('mkbinaryexpr', 'expr.c')
     models = {'fatal': lambda it, a, e: (_ for _ in ()).throw(Terminal('fatal', a)),
               'error': lambda it, a, e: (_ for _ in ()).throw(Terminal('error', a))}
-    PT = [('char', 1), ('short', 2), ('int', 4), ('double', 8), ('S12', 12), ('pint', 8), ('A20', 20)]
+    PT = [('char', 1), ('short', 2), ('int', 4), ('double', 8), ('S12', 12), ('pint', 8), ('A20', 20), ('VLA', None), ('A0', 0)]
     for pname, size in PT:
         for form in ('p+i', 'i+p', 'p-i', 'p-q'):
             for ity in ('int', 'long', 'uchar'):
@@ -403,6 +403,11 @@ def rule_pointer_scale(chk, prog, tier):
                     if pname == 'S12': base = w.mkstruct(size=12, align=4)
                     elif pname == 'pint': base = w.mkptr(w.t('int'))
                     elif pname == 'A20': base = it.call('mkarraytype', [w.t('int'), 0, 5])
+                    elif pname == 'A0': base = it.call('mkarraytype', [w.t('int'), 0, 0]); base.obj.f[('incomplete',)] = 0      # int[0], the GNU zero-length array: size 0 and not variably modified
+                    elif pname == 'VLA':
+                        # int[n] as declarator() builds it: size 0, complete, variably modified, the size known only at run time
+                        base = it.call('mkarraytype', [w.t('int'), 0, 0]); base.obj.f[('incomplete',)] = 0
+                        base.obj.f[('prop',)] = (it.load(base.obj, ('prop',)) or 0) | ev(prog, 'PROPVM'); base.obj.f[('u', 'array', 'length')] = w.mkexpr('EXPRIDENT', w.t('int')); base.obj.f[('u', 'array', 'size')] = None
                     else: base = w.t(pname)
                     pt = w.mkptr(base)
                     p = w.mkexpr('EXPRIDENT', pt); q = w.mkexpr('EXPRIDENT', pt); i_ = w.mkexpr('EXPRIDENT', w.t(ity))
@@ -435,6 +440,15 @@ def rule_pointer_scale(chk, prog, tier):
                         inner = K(l) == ev(prog, 'EXPRBINARY') and it.load(l.obj, ('op',)) == ev(prog, 'TSUB') and strip(it.load(l.obj, ('u', 'binary', 'l'))).obj is p.obj and strip(it.load(l.obj, ('u', 'binary', 'r'))).obj is q.obj
                         return okty and inner, d
                 runs = explore(prog, runner, models, max_runs=2, on_unsupported='keep')
+                if pname == 'VLA':
+                    # sizeof *p is a run-time value: a constant factor (cproc's type size field is 0 for such types) is a silent miscompilation;
+                    # the operation is either scaled by a non-constant or reported as unsupported (README: variable-length arrays are incomplete)
+                    if len(runs) != 1 or runs[0].outcome not in ('return', 'terminal:error'):
+                        raise AnalysisBroken('mkbinaryexpr %s VLA: %s' % (form, [(x.outcome, x.detail) for x in runs][:2]))
+                    ok = runs[0].outcome == 'terminal:error' or runs[0].value[1] is None
+                    r.instance(ok, 'ptrarith:%s,*p=int[n],i=%s' % (form, ity), 'expr.c:%s' % fn.get('line'),
+                               'pointer to a variable-length array: the operation must be scaled by the run-time size or diagnosed; cproc scales/divides by the constant %s' % (runs[0].value[1] if runs[0].outcome == 'return' else ''))
+                    continue
                 if len(runs) != 1 or runs[0].outcome != 'return':
                     raise AnalysisBroken('mkbinaryexpr %s %s: %s %s' % (form, pname, runs[0].outcome if runs else '?', runs[0].detail if runs else ''))
                 shape_ok, k = runs[0].value
